@@ -200,4 +200,149 @@ theorem overtaken_first_segment_differs :
     revert this
     decide +kernel
 
+/-! ### C05: two runs of the tool -/
+
+section Runs
+open TLX.MainLoop TLX.Export TLX.Spec.Demux TLX.Props.C01File TLX.Props.C01File.Ex TLX.Spec.TlsCapture
+
+theorem deliversStream_congr (info : Nat → Pipeline.Info) (c c' : Pipeline.Conn) (hs : c.server = c'.server)
+    (hp : c.pkts = c'.pkts) (d : Bool) (str : Bytes) (h : DeliversStream info c d str) : DeliversStream info c' d str := by
+  unfold DeliversStream at h ⊢
+  rw [← hs, ← hp]; exact h
+
+/-- run 1: the capture FILE of `C01File.Ex` (an ARP request, then `cap0` as Ethernet / IPv4 / TCP frames) -/
+def xs1 : List (MainLoop.Item Keylog.Key) := itemsFrom 0 (evs0.map CEv.cap)
+def info1 : Nat → Pipeline.Info := capInfo (evs0.map CEv.cap)
+/-- run 2: capture B as the main loop sees it -/
+def xs2 : List (MainLoop.Item Keylog.Key) := pktsB.map .frame
+def o0 : Opts := optsOf args0 ports0 []
+
+theorem flow2 : (tcpView o0 xs2).filter (sameFlow (pktsB.headD (mkPkt false [] 0))) = pktsB.headD (mkPkt false [] 0) :: pktsB.tail := by
+  decide +kernel
+
+theorem deliversRun1 (d : Bool) :
+    DeliversStream info1 (flowConn hashes Cipher.Toy.prims info1 o0 p00 TLX.Props.C01File.Ex.pkts0.tail) d (str0 d) := by
+  obtain ⟨_, _, _, _, hdelv⟩ := described_session fl0 (by decide) evs0 described0 o0 rfl
+    (by decide +kernel) (by decide +kernel) p00 TLX.Props.C01File.Ex.pkts0.tail fp0
+  obtain ⟨⟨isn, hio⟩, _⟩ := hdelv _ wires0 d
+  have hio' : Delivers 0 isn (recs0 d).flatten
+      ((dirSegs info1 (sessionOf (evs0.map CEv.cap) o0 p00 TLX.Props.C01File.Ex.pkts0.tail).server d
+        (sessionOf (evs0.map CEv.cap) o0 p00 TLX.Props.C01File.Ex.pkts0.tail).pkts).map Props.C05.wire) := hio
+  have := deliversStream_of_head info1 (sessionOf (evs0.map CEv.cap) o0 p00 TLX.Props.C01File.Ex.pkts0.tail) d (recs0 d)
+    (whole0 d) (len0 d) 0 isn hio' (by
+      intro s hs
+      exact Lemmas.Delivery.inorder_head hio' (Props.C05.wire s) (by rw [List.head?_map, hs]; rfl))
+  exact this
+
+theorem deliversRun2 (d : Bool) :
+    DeliversStream infoB (flowConn hashes Cipher.Toy.prims infoB o0 (pktsB.headD (mkPkt false [] 0)) pktsB.tail) d (str0 d) :=
+  deliversStream_congr infoB connB _ (by decide +kernel) (by decide +kernel) d _ (deliversB d)
+
+/-- **Non-vacuity of `export_segmentation_independent`**: the two runs hand the writer, for the flow, blocks that differ in
+    frame boundaries and times only. -/
+theorem export_seg_instance :
+    ∃ pre1 post1 pre2 post2 f1 f2 pc ps,
+      framesFrom (fun _ _ _ => none) hashes Cipher.Toy.prims freshState args0 (some kl0) xs1 info1 =
+        .ok (pre1 ++ f1.map (Pipeline.addressed o0 (flowConn hashes Cipher.Toy.prims info1 o0 p00 TLX.Props.C01File.Ex.pkts0.tail)) ++ post1) ∧
+      framesFrom (fun _ _ _ => none) hashes Cipher.Toy.prims freshState args0 (some kl0) xs2 infoB =
+        .ok (pre2 ++ f2.map (Pipeline.addressed o0
+          (flowConn hashes Cipher.Toy.prims infoB o0 (pktsB.headD (mkPkt false [] 0)) pktsB.tail)) ++ post2) ∧
+      Spec.reassemble f1 = some (pc, ps) ∧ Spec.reassemble f2 = some (pc, ps) := by
+  obtain ⟨hF1, hc1, _, _, _⟩ := described_session fl0 (by decide) evs0 described0 o0 rfl
+    (by decide +kernel) (by decide +kernel) p00 TLX.Props.C01File.Ex.pkts0.tail fp0
+  obtain ⟨pre1, post1, pre2, post2, f1, f2, pc, ps, e1, e2, r1, r2, _⟩ :=
+    export_segmentation_independent (fun _ _ _ => none) hashes Cipher.Toy.prims args0 (some kl0) [] ports0 rfl rfl
+      xs1 xs2 info1 infoB (by rw [show xs1 = itemsFrom 0 (evs0.map CEv.cap) from rfl, dsbKeys_itemsFrom]; decide +kernel)
+      (refPkt fl0) p00 TLX.Props.C01File.Ex.pkts0.tail hF1 hc1
+      (pktsB.headD (mkPkt false [] 0)) (pktsB.headD (mkPkt false [] 0)) pktsB.tail flow2 (by decide +kernel)
+      str0 deliversRun1 deliversRun2 (by unfold SameReleaseOrder; decide +kernel)
+  exact ⟨pre1, post1, pre2, post2, f1, f2, pc, ps, e1, e2, r1, r2⟩
+
+end Runs
+
+/-! ### C09: two key-log files -/
+
+section KeylogFiles
+open TLX.Keylog TLX.Spec.NssKeylog TLX.Props.C09Found TLX.Props.C01File2.Ex TLX.Lemmas.C01Rfc TLX.Export
+open TLX.Props.C01File.Ex TLX.Props.C01Rfc.Ex
+
+/-- the same secret delivered differently: lower-case hex with LF, the upper-case CRLF line once more, a comment behind -/
+def lsB : List (FLine × Bool) :=
+  [(.key tr0 (Keylog.hexOf (Pipeline.natsOfBytes cr0)) (Keylog.hexOf (List.replicate 48 5)), false),
+   (.key tr0 hcU (Keylog.hexOf (List.replicate 48 5)), true), (.other [35, 32, 120], false)]
+
+theorem lsB_wf : ∀ x ∈ lsB, x.1.WF := by
+  intro x hx
+  simp only [lsB, List.mem_cons, List.mem_nil_iff, or_false] at hx
+  rcases hx with rfl | rfl | rfl
+  · show DenotesVia _ tr0 _ _
+    exact ⟨rfl, by decide, by decide +kernel, by decide, by decide +kernel, by decide⟩
+  · show DenotesVia _ tr0 hcU _
+    exact ⟨rfl, by decide, by decide +kernel, by decide, by decide +kernel, by decide⟩
+  · exact ⟨by decide, by decide, Lemmas.Keylog.not_looks_of_first 35 _ (by decide)⟩
+
+theorem mem0 (tr : Triple) : (∃ hc hv crlf, (FLine.key tr hc hv, crlf) ∈ ls0) ↔ tr = tr0 := by
+  constructor
+  · rintro ⟨hc, hv, crlf, h⟩
+    simp only [ls0, List.mem_cons, List.mem_nil_iff, or_false, Prod.mk.injEq] at h
+    rcases h with ⟨h, _⟩ | ⟨h, _⟩ | ⟨h, _⟩
+    · cases h
+    · cases h; rfl
+    · cases h
+  · rintro rfl
+    exact ⟨hcU, Keylog.hexOf (List.replicate 48 5), true, by simp [ls0]⟩
+
+theorem memB (tr : Triple) : (∃ hc hv crlf, (FLine.key tr hc hv, crlf) ∈ lsB) ↔ tr = tr0 := by
+  constructor
+  · rintro ⟨hc, hv, crlf, h⟩
+    simp only [lsB, List.mem_cons, List.mem_nil_iff, or_false, Prod.mk.injEq] at h
+    rcases h with ⟨h, _⟩ | ⟨h, _⟩ | ⟨h, _⟩
+    · cases h; rfl
+    · cases h; rfl
+    · cases h
+  · rintro rfl
+    exact ⟨hcU, Keylog.hexOf (List.replicate 48 5), true, by simp [lsB]⟩
+
+theorem equiv0B : Equivalent (fileText ls0) (fileText lsB) := by
+  intro tr
+  rw [hasTriple_fileText_iff ls0 ls0_wf, hasTriple_fileText_iff lsB lsB_wf, mem0, memB]
+
+theorem consistent0 : Consistent (fileText ls0) := by
+  intro tr tr' h h' _ _
+  rw [hasTriple_fileText_iff ls0 ls0_wf, mem0] at h h'
+  rw [h, h']
+
+/-- the two files are parsed to different key lists (one key resp. two) … -/
+example : (fileKeysOf (some (fileText ls0))).getD [] ≠ (fileKeysOf (some (fileText lsB))).getD [] := by decide +kernel
+
+def oX : MainLoop.Opts := ⟨ports0, false, false, false, Options.keepOriginalPorts none, []⟩
+
+/-- … **and the TLS export of the two runs is the same** (non-vacuity of `export_keylog_text_independent`, and through it
+    of `export_keylog_denotation_independent`, `tlsFrames_keylog_independent`, `connOut_keylog_independent`) -/
+theorem keylog_instance :
+    ∃ quic1 quic2,
+      framesFrom (fun _ _ _ => none) hashes Cipher.Toy.prims MainLoop.freshState args0 (fileKeysOf (some (fileText ls0))) xs1 info1 =
+        .ok ((TLX.Lemmas.ExportProps.tlsFrames hashes Cipher.Toy.prims info1 oX (fileKeysOf (some (fileText ls0))) xs1).flatten
+          ++ quic1) ∧
+      framesFrom (fun _ _ _ => none) hashes Cipher.Toy.prims MainLoop.freshState args0 (fileKeysOf (some (fileText lsB))) xs1 info1 =
+        .ok ((TLX.Lemmas.ExportProps.tlsFrames hashes Cipher.Toy.prims info1 oX (fileKeysOf (some (fileText ls0))) xs1).flatten
+          ++ quic2) :=
+  export_keylog_text_independent (fun _ _ _ => none) hashes Cipher.Toy.prims info1 MainLoop.freshState args0 oX rfl
+    (fileText ls0) (fileText lsB) (wellFormed_fileText ls0 ls0_wf) (wellFormed_fileText lsB lsB_wf) equiv0B consistent0
+    (crOk_fileText ls0 ls0_wf) (crOk_fileText lsB lsB_wf) xs1
+
+/-- `OnlySecret` — the key-log hypothesis of `tls12_capture_exact_rfc` — for the key-log file of `C01File2.Ex`, from C09's
+    consistency -/
+theorem onlySecret_instance :
+    OnlySecret ls0 Spec.RfcSuite.labelClientRandom (Pipeline.natsOfBytes t0.ch.random) (Pipeline.natsOfBytes ms0) := by
+  have htr : tr0 = ⟨Spec.RfcSuite.labelClientRandom, Pipeline.natsOfBytes t0.ch.random, Pipeline.natsOfBytes ms0⟩ := by
+    decide +kernel
+  apply ExportSeg.onlySecret_of_consistent ls0 ls0_wf
+  · intro tr tr' h h' _ _ _
+    rw [hasTriple_fileText_iff ls0 ls0_wf, mem0] at h h'
+    rw [h, h']
+  · exact ⟨hcU, Keylog.hexOf (List.replicate 48 5), true, by rw [← htr]; simp [ls0]⟩
+
+end KeylogFiles
+
 end TLX.Props.ExportSeg.Ex
